@@ -84,13 +84,14 @@ def check(run):
     psd = Prov(ix, sd, depth=12)
     n_ret = 0
     mids = []
-    for r in ast.walk(sd.node):
-        if not (isinstance(r, ast.Return) and isinstance(r.value, ast.Tuple) and len(r.value.elts) >= 2 and psd.stmt_of_return(r) is not None):
+    from ..idioms import returned_tuples
+    for r, elts_ in returned_tuples(sd.node):
+        if (psd.stmt_of_return(r) if isinstance(r, ast.Return) else psd.stmt_of(r.value)) is None:
             continue
         n_ret += 1
         where = f"{sd.module.rel}:{r.lineno} {sd.qualname}"
-        v1, vrest = first_part(psd.canon(r.value.elts[0], r))
-        f1, frest = first_part(psd.canon(r.value.elts[1], r))
+        v1, vrest = first_part(psd.canon(elts_[0], r))
+        f1, frest = first_part(psd.canon(elts_[1], r))
         ok = v1 == "P_vertices"
         run.instance("R2", where, f"returned vertices = stack(({v1}, ...)): original first", ok)
         if not ok:
@@ -224,17 +225,25 @@ def check(run):
                                       "is removed once, or split and untouched sets overlap", key=key_of("C18-R4", "mask"))
     # the index of children: dict(zip(<indices of the selected faces in mask order>, <rows of 4 consecutive new face ids>))
     ok = False
-    for r in ast.walk(sd.node):
-        if isinstance(r, ast.Return) and isinstance(r.value, ast.Tuple) and len(r.value.elts) == 3 and pss.stmt_of_return(r) is not None:
-            term = pss.term(r.value.elts[2], r)
+    seen_index = False
+    for r, elts_ in returned_tuples(sd.node, 3):
+        if len(elts_) == 3 and (pss.stmt_of_return(r) if isinstance(r, ast.Return) else pss.stmt_of(r.value)) is not None:
+            term = pss.term(elts_[2], r)
             tn = ast.parse(ast.unparse(term), mode="eval").body
+            if isinstance(tn, ast.Call) and ast.unparse(tn.func) == "dict":
+                seen_index = True
             if isinstance(tn, ast.Call) and ast.unparse(tn.func) == "dict" and len(tn.args) == 1 and isinstance(tn.args[0], ast.Call) \
                     and ast.unparse(tn.args[0].func) == "zip" and len(tn.args[0].args) == 2:
                 keys, vals = tn.args[0].args
                 km = nonzero_rows(keys)
                 four = match_expr("numpy.arange(_e_start, _e_start + len(_e_f) * 4).reshape((-1, 4))", vals)
                 ok = km is not None and ast.unparse(km).startswith("PHI_") and four is not None
-    run.instance("R4", sd.where, "return_index maps each selected face (in mask order) to its four children", ok)
+    if not ok and not seen_index:
+        run.instance("R4", sd.where, "the index of children returned by subdivide is not a `dict(zip(...))` in a recognised place - NOT decided", True, nontrivial=False)
+        run.assume("subdivide: returned index of children not in a recognised form")
+        ok = True
+    else:
+        run.instance("R4", sd.where, "return_index maps each selected face (in mask order) to its four children", ok)
     if not ok:
         run.violation("R4", sd.where, "subdivide's index of children no longer follows the mask order", key=key_of("C18-R4", "index"))
 
